@@ -66,15 +66,15 @@ def run(ctx):
                 reads = rd
         ctx.ob("C09.G.word-variant-shape", f.key, "find(|v| …word…)", finds == 1 and pred is not None, "%d find calls; predicate closure %s" % (finds, pred.key if pred else None))
         if pred is not None:
-            rs = [e for _, e in ctx.ret_exprs(pred)]
+            rs = ctx.ret_values(pred)
             # the predicate must look at the *value* of `word` (word = false is not a word variant), not at its presence
             val = bool(rs) and all(re.search(r"unwrap_or(_default)?\(.*\.word", e) is not None or re.search(r"\(.*\.word as Some\)\.0", e) is not None for e in rs) and not any(re.match(r"^!?is_some\(", e) for e in rs)
             inner_ok = True
             for c2 in ctx.closures_of(pred):
-                r2 = [e for _, e in ctx.ret_exprs(c2)]
+                r2 = ctx.ret_values(c2)
                 inner_ok = inner_ok and r2 == ["a2"]
             ctx.ob("C09.G.word-variant-by-value", f.key, "bare-word variant predicate tests the boolean value of `word`", val and inner_ok,
-                   "predicate returns %s (inner closures %s): a variant with `word = false` must not become the bare-word value" % (rs, [[e for _, e in ctx.ret_exprs(c2)] for c2 in ctx.closures_of(pred)]))
+                   "predicate returns %s (inner closures %s): a variant with `word = false` must not become the bare-word value" % (rs, [ctx.ret_values(c2) for c2 in ctx.closures_of(pred)]))
         ctx.ob("C09.G.word-variant-not-skipped", f.key, "bare-word variant predicate reads `skip`", "skip" in reads,
                "F20: the predicate selecting the bare-word variant reads only %s of the variant: a variant marked `skip` and `word` becomes the bare-word value" % sorted(reads))
     # ------------------------------------------------------------ arm templates
